@@ -36,7 +36,7 @@ package helpers
 //@ func IsMetadata
 //@ props C14 C03
 //@ reveal isMeta
-//@ ensures.prefix[C14] result == isMeta(data)
+//@ ensures.prefix[C14,C03] result == isMeta(data)
 //@ modifies nothing
 
 // Size strings. Strings and floats are uninterpreted here: the contract fixes which substring is parsed,
